@@ -57,8 +57,8 @@ def parseMinted (ws : List String) : Option (List (Nat × Bytes)) :=
 /-- `op` = tokens of the operation line, `res` = tokens of the result line after `=` -/
 def parsePair (op res : List String) : Option Parsed :=
   match op, res with
-  | ["init"], [rv] => do pure ⟨.initialize, { rv := ← parseNat? rv }⟩
-  | ["fini"], [rv] => do pure ⟨.finalize, { rv := ← parseNat? rv }⟩
+  | ["init"], [rv] => do pure ⟨.initLib, { rv := ← parseNat? rv }⟩
+  | ["fini"], [rv] => do pure ⟨.finiLib, { rv := ← parseNat? rv }⟩
   | ["slots"], rv :: n :: rows => do
       let (ns, vs) ← parseSlotRows rows
       pure ⟨.slots, { rv := ← parseNat? rv, nums := (← parseNat? n) :: ns, vals := vs }⟩
@@ -109,5 +109,11 @@ def compareResp (c : Call) (model obs : Resp) : Option String :=
     match c with
     | _ => some s!"bytes: model {model.vals.map (·.map toHex)} impl {obs.vals.map (·.map toHex)}"
   else none
+
+/-- category of a disagreement: `rvclass` (one side OK, the other not), `rvcode` (both fail, different code),
+    `nums` (handles/states/counts differ), `vals` (byte strings differ) -/
+def mismatchCat (model obs : Resp) : String :=
+  if model.rv != obs.rv then (if model.rv == 0 || obs.rv == 0 then "rvclass" else "rvcode")
+  else if model.nums != obs.nums then "nums" else "vals"
 
 end Shm
